@@ -530,6 +530,10 @@ impl ExTracker {
                 }
             }
             rule!(
+                ctx, "C17", "admitted-not-in-book", "tick", tail_ok,
+                "the {} orders reported as admitted are not the tail of the book after the tick: book {:?}", n_adm, post.book.iter().map(|o| o.order_id).collect::<Vec<_>>()
+            );
+            rule!(
                 ctx, "C03", "book-conservation", "tick", ok && tail_ok,
                 "book after tick {:?} is not (a subsequence of the book before {:?}) followed by the admitted batch {:?}",
                 post.book.iter().map(|o| o.order_id).collect::<Vec<_>>(), pre_ids, admitted.iter().map(|o| o.order_id).collect::<Vec<_>>()
